@@ -5,8 +5,8 @@
    * per model: when no name is given an equation by two statements, the merged list emits as many equations /
      blocks as the per-statement lists together (merge_symbols_count);
    * together: n_emitted (parse_model …) = number of statements (every_statement_contributes).
-   The guards are exactly the finding classes refuted in ParseModelExamples (two names on the left, a left-hand
-   name called as a function, identical duplicates); the unclosed fence — formerly a fourth finding — is a
+   The guards are exactly the finding classes refuted in ParseModelExamples (two names on the left, identical
+   duplicates; a left-hand name called as a function is a SymbolError since fix b45daa1 and needs no guard); the unclosed fence — formerly a fourth finding — is a
    ParserError since 85765d5 (SplitChunksFacts.unclosed_fence_is_parser_error), so an accepted model loses no line:
    no_statement_discarded below puts both halves together. *)
 From Coq Require Import String Ascii List Bool Arith ZArith Lia.
@@ -137,11 +137,11 @@ Proof.
 Qed.
 
 (* ---------- one equation ---------- *)
-(* every ENDOGENOUS term is named y and no FUNCTION term is *)
+(* every ENDOGENOUS term is named y.  (Until fix b45daa1 the guard also had to exclude a FUNCTION term named y — finding #19:
+   the function symbol silently replaced the variable; such a statement is now rejected with SymbolError, MergeClashFacts.) *)
 Definition lhs_guard (y : string) (terms : list term) : bool :=
   forallb (fun t => match ttype t with
                     | TEndogenous => String.eqb (tname t) y
-                    | TFunction => negb (String.eqb (tname t) y)
                     | _ => true
                     end) terms.
 Definition is_endo (t : term) : bool := type_eqb (ttype t) TEndogenous.
@@ -232,12 +232,6 @@ Section OneEquation.
         * destruct (combine sym sym) as [c|] eqn:Ec; [|discriminate]. inversion Ed; subst dd.
           destruct (combine_self _ _ Ec) as (Ece & _ & Tc).
           apply (inv_set_y e true d c I); [unfold tidy; rewrite Ece, Es, Tc; reflexivity|congruence|auto].
-      + (* FUNCTION: the name is not y *)
-        apply negb_true_iff in Gt. apply String.eqb_neq in Gt.
-        destruct (mem_string (tname t) fs); intros H.
-        * eapply IH; [exact Gr|exact I|exact H].
-        * eapply IH; [exact Gr| |exact H]. apply inv_set_other; auto.
-          unfold tidy, emits; cbn. repeat split; discriminate.
       + (* VERBATIM terms never become symbols *)
         intros H. eapply IH; [exact Gr|exact I|exact H].
   Qed.
